@@ -145,6 +145,10 @@ func genLOps(rc *RunCtx, c LCfg) []Op {
 // ---------------------------------------------------------------- hostile input (C15)
 
 func genHostile(r *PRNG, c LCfg) Op {
+	if r.Chance(1, 6) {
+		// a connection that claims, inside its IDENTIFY body, to be another producer's connection
+		return Op{Kind: "spoof", A: int64(r.Intn(4)), B: int64(r.Intn(3)), C: int64(r.Intn(8))}
+	}
 	switch r.Intn(4) {
 	case 0: // raw TCP byte stream on a fresh connection
 		return Op{Kind: "rawtcp", Data: genHostileTCP(r, c), A: int64(r.Intn(3))}
@@ -441,7 +445,7 @@ func (w *lWorld) exec(op Op) {
 	case "http":
 		w.execHTTP(op)
 		return
-	case "rawtcp", "hostilecmd", "rawhttp":
+	case "rawtcp", "hostilecmd", "rawhttp", "spoof":
 		w.execHostile(op)
 		return
 	}
@@ -693,6 +697,32 @@ func (w *lWorld) noteHostileRegistrations(text string) {
 	}
 }
 
+// noteHostileUnregistrations: an UNREGISTER by any identified connection
+// removes an ephemeral topic or channel registration that has no producer
+// left (it belongs to no connection then); such keys become optional.
+func (w *lWorld) noteHostileUnregistrations(text string) {
+	for _, m := range hostileUnregRe.FindAllStringSubmatch(text, -1) {
+		k := lKey{"topic", m[1], ""}
+		if m[2] != "" {
+			k = lKey{"channel", m[1], m[2]}
+		}
+		name := m[1]
+		if m[2] != "" {
+			name = m[2]
+		}
+		if !strings.HasSuffix(name, "#ephemeral") {
+			continue
+		}
+		if set, ok := w.keys[k]; ok && len(set) == 0 {
+			delete(w.keys, k)
+			w.fuzzy[k] = true
+			w.rc.Probe("hostile_unregister_of_orphan_ephemeral")
+		}
+	}
+}
+
+var hostileUnregRe = regexp.MustCompile(`UNREGISTER +([^\s]+)(?: +([^\s]+))?`)
+
 var hostileRegRe = regexp.MustCompile(`REGISTER +([^\s]+)(?: +([^\s]+))?`)
 
 func (w *lWorld) execHostile(op Op) {
@@ -700,6 +730,8 @@ func (w *lWorld) execHostile(op Op) {
 	rc.Probe("hostile_ops")
 	w.noteHostileRegistrations(string(op.Data))
 	w.noteHostileRegistrations(op.S)
+	w.noteHostileUnregistrations(string(op.Data))
+	w.noteHostileUnregistrations(op.S)
 	switch op.Kind {
 	case "rawtcp":
 		c, err := rc.Net.DialFrom(nil, w.tcp)
@@ -721,6 +753,54 @@ func (w *lWorld) execHostile(op Op) {
 			c.Close()
 		}
 		synctest.Wait()
+	case "spoof":
+		var victim *lPeer
+		for i := 0; i < len(w.peers); i++ {
+			if p := w.peers[(int(op.A)+i)%len(w.peers)]; p != nil && p.connected && p.identified {
+				victim = p
+				break
+			}
+		}
+		if victim == nil {
+			return
+		}
+		cl, err := dialV2(rc, "spoof", w.tcp, "  V1")
+		if err != nil {
+			w.violate("C15", "refused", "TCP connect refused: %v", err)
+			return
+		}
+		cl.RawMode = true
+		cl.Start()
+		hp := &lPeer{idx: 98, cl: cl, connected: true}
+		va := victim.cl.Conn.LocalAddr().String()
+		body := fmt.Sprintf(`{"broadcast_address":"spoof.sim","tcp_port":19,"http_port":20,"version":"1","hostname":"spoof","remote_address":%q,"id":%q,"RemoteAddress":%q}`, va, va, va)
+		var b bytes.Buffer
+		b.WriteString("IDENTIFY\n")
+		b.Write(be32(int32(len(body))))
+		b.WriteString(body)
+		cl.Send(b.Bytes())
+		w.readResp(hp, 5*time.Second)
+		t := w.topicName(op.C)
+		variant := op.B % 3
+		if strings.HasSuffix(t, "#ephemeral") {
+			// (an UNREGISTER by anybody removes an ephemeral topic that has no producer left:
+			// that registration belongs to no connection; not exercised here)
+			variant = 2
+		}
+		switch variant {
+		case 0:
+			cl.Send([]byte("UNREGISTER " + t + "\n"))
+			w.readResp(hp, 5*time.Second)
+		case 1:
+			w.noteHostileRegistrations("REGISTER " + t)
+			cl.Send([]byte("REGISTER " + t + "\n"))
+			w.readResp(hp, 5*time.Second)
+			cl.Send([]byte("UNREGISTER " + t + "\n"))
+			w.readResp(hp, 5*time.Second)
+		}
+		cl.Close()
+		synctest.Wait()
+		rc.Probe("spoofed_identify")
 	case "hostilecmd":
 		cl, err := dialV2(rc, "hostile", w.tcp, "  V1")
 		if err != nil {
